@@ -57,6 +57,21 @@ CHECKS["C10"] = dict(
         "Partial: adapters' channel send relies on the protocol loop draining it.",
    technique="Lean 4 totality proofs over panic-aware models + regenerated site census (kernel-decided) + structure-aware differential fuzzing")
 
+CHECKS["C15"] = dict(
+   text="Lean 4 theorems over every sequential history of arrivals, sends and clock ticks (any length, any limits): inductive invariant Wf (in-flight table = topics holding buffered messages of the sender; counters = buffered messages; buffered and started exclude each other), "
+        "per-sender and per-topic bounds (limit+1, maxTopics+1), shedding changes nothing and cannot fail, release on start with in-order hand-over of exactly the buffered messages, throttling only by currently live topics (no stale throttling), "
+        "and after any idle stretch longer than the expiry the next Send collects everything (GC keeps running, data for never-started topics is discarded). Tie: step-exact differential runs incl. table sizes against the real Box with an injected ticker; constants and comparison operators regenerated from source.",
+   design="4/C15",
+   note="Trusted: Lean kernel, Model/Box.lean (tied step-exactly incl. sizes), harness + snapshot hook, driver compaction. Assumed: sequential calls; 'expired' = collected by a sweep (lazy, at most once per expiry period, only during a Send).",
+   technique="Lean 4 inductive-invariant proof over arbitrary operation histories + step-exact differential correspondence + regenerated constants")
+CHECKS["C14"] = dict(
+   text="Lean 4 theorems over every set of thread scripts and every schedule at lock granularity: conservation of messages (each is in exactly one place), no duplicates at any moment, exactly-once hand-over at quiescence for started topics, "
+        "still buffered and not handed over for never-started topics. Tie: the real msg.Box under a controlled scheduler (yield hooks), all schedules of small scenarios, sampled schedules replayed step by step on the model. "
+        "Per-sender order is refuted by a kernel-checked witness that the scheduler reproduces on the real code: known finding KF-C14-order (exactly that behaviour prints KNOWN-FINDING; any other order, loss or duplication is a violation).",
+   design="4/C14",
+   note="Trusted: Lean kernel, Model/BoxConc.lean, the yield hooks and the controlled scheduler. Assumed: Go mutex semantics; no clock ticks during the runs; limits not exceeded. Partial: per-sender order (known finding).",
+   technique="Lean 4 proof of a conservation invariant over all interleavings + exhaustive controlled-scheduler correspondence on the real code")
+
 NOT_YET = {}
 
 def main():
